@@ -282,7 +282,20 @@ class Ctx:
         return self._mk("ite", a.dt, (c, a, b), a.cv if c.cv else b.cv)
 
     def nary(self, op, dt, args, cv):
-        """sum / dot with unspecified association order (cv is the real kernel's value)."""
+        """sum / dot with unspecified association order (cv is the real kernel's value); canonical argument order
+        (multiset semantics) so that equal computations coincide, also after substitution"""
+        args = list(args)
+        if op in ("sum", "mean"):
+            args.sort(key=lambda t: t.uid)
+        elif op in ("dot", "dotb", "dot_scaled"):
+            head = args[:1] if op != "dot" else []
+            rest = args[1:] if op != "dot" else args
+            pairs = []
+            for i in range(0, len(rest), 2):
+                x, y = rest[i], rest[i + 1]
+                pairs.append((x, y) if x.uid <= y.uid else (y, x))
+            pairs.sort(key=lambda p: (p[0].uid, p[1].uid))
+            args = head + [t for p in pairs for t in p]
         return self._mk(op, dt, tuple(args), cv)
 
     def uf(self, name, dt, statics, args, cv):
